@@ -82,7 +82,10 @@ struct Block {
 }
 
 /// the roff reader
-fn read_roff(doc: &str, with_preamble: bool) -> Result<Vec<Block>, String> {
+/// `bare_lead_in`: the input starts with text that no escape sequence introduces - outside the
+/// property's "segments each introduced by one sequence"; such a lead-in may come with the two
+/// `default` colour requests (as it always has) or without any request at all
+fn read_roff(doc: &str, with_preamble: bool, bare_lead_in: bool) -> Result<Vec<Block>, String> {
     let mut rest = doc;
     if with_preamble {
         let pre = ".ie \\n(.g .ds Aq \\(aq\n.el .ds Aq '\n";
@@ -117,6 +120,9 @@ fn read_roff(doc: &str, with_preamble: bool) -> Result<Vec<Block>, String> {
                 _ => return Err(format!("the document contains the request line {l:?}, which is not a colour request: text was able to introduce a request, or an unknown request is emitted")),
             }
             i += 1;
+        }
+        if bare_lead_in && blocks.is_empty() && colours.is_empty() {
+            colours = vec![(".gcolor".to_owned(), "default".to_owned()), (".fcolor".to_owned(), "default".to_owned())];
         }
         if colours.len() != 2 || colours[0].0 != ".gcolor" || colours[1].0 != ".fcolor" {
             return Err(format!("expected exactly one .gcolor and one .fcolor before a text block, found {:?}", colours));
@@ -233,7 +239,7 @@ fn check(segs: &[Seg]) -> Result<bool, String> {
     let doc = anstyle_roff::to_roff(&input);
     let want = expected_blocks(segs);
     for (what, text, pre) in [("to_roff()", doc.to_roff(), false), ("render()", doc.render(), true)] {
-        let got = merge(read_roff(&text, pre).map_err(|e| format!("{what} of {}: {e}", esc(input.as_bytes())))?);
+        let got = merge(read_roff(&text, pre, segs.first().is_some_and(|s| !s.styled)).map_err(|e| format!("{what} of {}: {e}", esc(input.as_bytes())))?);
         // compared character by character: colours exactly, the font of every glyph exactly, the font
         // of a newline (which has no glyph) not at all - insensitive to where the renderer splits
         // a segment and to whether a font span covers embedded newlines
@@ -478,7 +484,7 @@ fn replay(sub: &str, case: &Value) -> Result<(), String> {
             })
             .collect();
         let doc = anstyle_roff::to_roff(input).to_roff();
-        let got = merge(read_roff(&doc, false)?);
+        let got = merge(read_roff(&doc, false, false)?);
         // a defined colour is compared by its definition
         if got != want {
             return Err(format!("to_roff({}) reads back as {:?}, expected {:?}", esc(input.as_bytes()), got, want));
